@@ -43,7 +43,13 @@ func TestVerifC20(t *testing.T) {
 		"that started, the dummy means (internal API), the JSON-LD loader, the IAM client and the did:web resolver are exercised against in-process listeners. " +
 		"(gating) every configuration key of the node (koanf-tagged fields of core.ServerConfig and of every registered engine's Config() by reflection, united with the " +
 		"flags of the server command) x a small value set by type x every insecure single setting of the matrix and the strict baseline with dummy means; " +
-		"oracle unchanged: strict and insecure => refused whatever the other option says. " +
+		"oracle unchanged: strict and insecure => refused whatever the other option says. Value classes of a number / duration: {1, ordinary, 0, negative, " +
+		"max-int32 / 1ns, max} — the zero / negative / huge classes are started in a child process (a crash is an observation); thorough: pairs of keys at their " +
+		"zero / empty / off value. Before every start the process-wide variables that engines assign (http/client.StrictMode, DefaultCachingTransport) are put back " +
+		"to the fresh-process value; on every node that starts the whole caller battery of (outbound) is driven against the process state that start left, and the " +
+		"effective state is read (loaded option values, <datadir>/sqlite.db, <datadir>/crypto, plaintext HTTP/2 probe of the gRPC listener). " +
+		"(spelling) insecure names in other case / position / with spaces; the strictmode boolean spelled otherwise and absent; every must-be-set option " +
+		"(crypto.storage, storage.sql.connection, url, tls.certfile, tls.certkeyfile) set to a blank value {\"\", spaces, tab, newline, YAML null} by environment, file and command line. " +
 		"(flags) every flag registered on the `server` command (VisitAll) ending in token/password: --f=v, --f v, `nuts config --f=v`, environment, file, both modes; " +
 		"every moved key by environment, file, command line. " +
 		"(outbound) every constructor of the strict HTTP client and every caller wrapping one x strict x first hop {https,http} x host {domain, IP, reserved} x " +
@@ -52,6 +58,8 @@ func TestVerifC20(t *testing.T) {
 	r.Assume("refused = logrus.Fatal entry or error from cmd.Execute before /status answers; started = GET /status on the internal listener returns 200")
 	r.Assume("network TLS off is judged only when did:nuts is enabled (without it the node has no gRPC network; the check asserts that the port is then closed)")
 	r.Assume("the in-process listeners stand for the internet: names are routed by SafeHttpTransport.DialContext / http.DefaultTransport, certificates are not verified")
+	r.Assume("an option value consisting of white space only (or YAML null) names no back-end / database / URL / certificate: as sent it is 'not set'; a public URL is classified on its trimmed value")
+	r.Assume("the gRPC listener is plaintext only on positive evidence (an HTTP/2 SETTINGS frame answered in the clear); tls.offload set = TLS documented to be terminated by a proxy")
 	r.Assume("secret = option name ending in token or password (docs/pages/deployment/configuration.rst); reserved host = RFC 2606 + draft-chapin-rfc2606bis names cited by core/url.go")
 
 	var probe struct {
